@@ -16,7 +16,7 @@
                   write-only `$zero` scalar and `branching_condition` are ignored. *)
 From Coq Require Import ZArith List Bool NArith.
 From Falcon Require Import Base.Res IL.Const IL.ConstSpec IL.Expr IL.Func IL.Loc Exec.Sem Isa.ILRun Isa.Mips Isa.MipsLift.
-From Falcon Require Isa.Ppc.
+From Falcon Require Isa.Ppc Isa.PpcLift.
 Import ListNotations.
 Local Open Scope Z_scope.
 
@@ -123,7 +123,7 @@ Definition graph_wf (g : cfg) : bool :=
   end.
 
 Definition tie (bg : bool) (addr : Z) (ws : list Z) (l : lifted) : bool :=
-  forallb graph_wf (graphs_of l) && case_okb addr ws &&
+  forallb graph_wf (graphs_of l) && case_okb addr ws && forallb (fun x => nodupN (snd x)) (fst l) &&
   match mirror_block bg addr ws (map (fun x => snd x) (fst l)) with
   | None => true                                      (* form not mirrored: no syntactic claim *)
   | Some m => lifted_eqb m (map (fun x => (fst (fst x), snd (fst x))) (fst l), snd l)
@@ -171,10 +171,7 @@ Import Isa.Ppc.
    Scalars are interned in the fixed order r0..r31 = 0..31, lr = 32, ctr = 33, carry = 34 (XER[CA]),
    cr0-lt cr0-gt cr0-eq cr0-so ... cr7-so = 35..66 (CR bit i = 35 + i).  The IL has no XER[SO]:
    the sampled states have every crN-so equal to XER[SO] (then "copied from XER[SO]" = "unchanged"). *)
-Definition P_LR : Z := 32.
-Definition P_CTR : Z := 33.
-Definition P_CA : Z := 34.
-Definition P_CR0 : Z := 35.
+Import Isa.PpcLift.
 
 Definition mk_pstate (addr : Z) (sm : psample) : pstate :=
   mkp (fun r => if (r <? 0) || (31 <? r) then 0
@@ -241,7 +238,13 @@ Definition ck (k : case) : bool * bool :=
       (tie bg addr ws l, forallb (oracle1 bg addr ws l) samples)
   | KPpc addr w None _ => (true, true)
   | KPpc addr w (Some l) samples =>
-      (forallb graph_wf (graphs_of l), forallb (poracle1 addr w l) samples)
+      (forallb graph_wf (graphs_of l) && forallb (fun x => nodupN (snd x)) (fst l) &&
+       pcase_okb addr w (match fst l with x :: _ => snd x | [] => [] end) &&
+       match pmirror_block addr w (map (fun x => snd x) (fst l)) with
+       | None => true                                   (* form not mirrored: no syntactic claim *)
+       | Some m => lifted_eqb m (map (fun x => (fst (fst x), snd (fst x))) (fst l), snd l)
+       end,
+       forallb (poracle1 addr w l) samples)
   end.
 
 Inductive pdiag := PDUnpred | PDOk (pc_spec : Z) (il : option Z) (bad : list (Z * option const)) | PDIl (e : option err).
